@@ -1119,7 +1119,7 @@ class Action:
         for value in value.split(delim):
             if fwd:
                 if append:
-                    npath = npath + [value]
+                    npath = [d for d in npath if d != value] + [value] # an element that's already there moves to the end
                 else:
                     npath = [value] + npath
             else:
